@@ -29,7 +29,7 @@ var (
 const kJarPrefix = "C03:jar-with-leading-or-embedded-non-archive-data-corrupted"
 
 func TestMain(m *testing.M) {
-	rec.Rule("cases = (format with an independent payload reader: PE, MSI/CFB, JAR incl. hostile layouts (prefix bytes, gaps, zero-length members, long names), PowerShell family, XAP, VSIX, APPX, APK, Mach-O, DEB; input generated or fixture; key; digest; output same/new path); oracle = outcome is either (error, input untouched, no output) or (success, output well-formed per independent reader: Go archive/zip, debug/macho, ar, harness PE parser and CFB validator; every payload item that is not signature metadata has identical bytes, metadata and order; relic's verifier accepts the output); non-trivial = generated input with >= 2 layout classes or a hostile layout; distinct = (format, input sha256, key, digest, path mode)")
+	rec.Rule("cases = (format with an independent payload reader: PE, MSI/CFB, JAR incl. hostile layouts (prefix bytes, gaps, zero-length members, long names), PowerShell family, XAP, VSIX, APPX, APK, Mach-O, DEB; input generated or fixture; key; digest; output same/new path); oracle = outcome is either (error, input untouched, no output) or (success, output well-formed per independent reader: Go archive/zip, debug/macho, ar, harness PE parser and CFB validator; every payload item that is not signature metadata has identical bytes, metadata and order; relic's verifier accepts the output); PGP clear-signed and inline messages over generated text and binary documents (lines of 4094..19000 bytes and around 64 KiB): the document an independent OpenPGP reader recovers equals the input and the signature is good over it, lines beyond 64 KiB may be refused cleanly, the signer comes back; non-trivial = generated input with >= 2 layout classes or a hostile layout; distinct = (format, input sha256, key, digest, path mode)")
 	rec.Assume("ZIP layout classes listed as C17 findings are not drawn")
 	var err error
 	workDir, err = os.MkdirTemp("", "c03-")
